@@ -235,25 +235,40 @@ func specQuery(maxLen int) seqmc.Spec {
 	return seqmc.Spec{Name: fmt.Sprintf("client query of <=%d plain elements reaches the server indexed as the same elements", maxLen), N: len(qs), Run: func(i int) (string, bool, []seqmc.Violation) {
 		q := qs[i]
 		desc := fmt.Sprintf("%q", []string(q))
-		req, err := gclient.VerifSubscribeRequest(client.Query{Target: "t", Queries: []client.Path{q}, Type: client.Once})
 		class := "query-roundtrip"
 		if strings.HasSuffix(q[len(q)-1], "/") {
 			class = "query-last-element-ends-with-slash"
 		}
-		if err != nil {
-			return desc, true, vio(class, "query %s rejected: %v", desc, err)
-		}
-		b, err := proto.Marshal(req)
-		if err != nil {
-			return desc, true, vio(class, "marshal: %v", err)
-		}
-		var back pb.SubscribeRequest
-		if err := proto.Unmarshal(b, &back); err != nil {
-			return desc, true, vio(class, "unmarshal: %v", err)
-		}
-		got := path.ToStrings(back.GetSubscribe().GetSubscription()[0].GetPath(), false)
-		if !reflect.DeepEqual([]string(q), got) {
-			return desc, true, vio(class, "client query %s reaches the server indexed as %q", desc, got)
+		// One Query object converted several times, as a reconnecting client does
+		// on every re-subscription: every conversion must reach the server as the
+		// same elements and the caller's Query must stay as it was. The path is
+		// given spare capacity so that an append-in-place would show.
+		orig := append([]string{}, q...)
+		qq := append(make(client.Path, 0, len(q)+4), q...)
+		query := client.Query{Target: "t", Queries: []client.Path{qq}, Type: client.Once}
+		for round := 1; round <= 3; round++ {
+			req, err := gclient.VerifSubscribeRequest(query)
+			if err != nil {
+				return desc, true, vio(class, "query %s rejected (conversion %d): %v", desc, round, err)
+			}
+			b, err := proto.Marshal(req)
+			if err != nil {
+				return desc, true, vio(class, "marshal: %v", err)
+			}
+			var back pb.SubscribeRequest
+			if err := proto.Unmarshal(b, &back); err != nil {
+				return desc, true, vio(class, "unmarshal: %v", err)
+			}
+			got := path.ToStrings(back.GetSubscribe().GetSubscription()[0].GetPath(), false)
+			if !reflect.DeepEqual(orig, got) {
+				if round > 1 {
+					class = "query-roundtrip-repeated-conversion"
+				}
+				return desc, true, vio(class, "client query %s reaches the server indexed as %q (conversion %d of the same Query)", desc, got, round)
+			}
+			if !reflect.DeepEqual(orig, []string(query.Queries[0])) {
+				return desc, true, vio("query-modified-by-conversion", "converting client query %s changed the caller's Query to %q", desc, []string(query.Queries[0]))
+			}
 		}
 		return desc, strings.Contains(strings.Join(q, ""), "/"), nil
 	}}
